@@ -125,7 +125,7 @@ def small_alphabet_walks(seed, n, length=40, scope=1):
         s = Script()
         boot(s, mtu=rng.choice([576, 590, 1500]))
         for _ in range(length):
-            s.rx(1, rng.choice(frames))
+            s.rx(1, rng.choice(frames), fill=rng.choice([0, 0, 0, 0xFF, 1, 0xC0]))   # stale bytes behind the frame
         for f in suffix():
             s.rx(1, f)
         scs.append(Scenario("g1-walk-%d" % i, s.lines))
